@@ -7,7 +7,7 @@ EXTENDS MatrixInterp, TLC, Json
 CONSTANTS MaxToks, DoExport
 VARIABLES c
 Toks == { MLit("x "), MLit("-"), MTok("a", "", ""), MTok("a", " ", "\t"), MTok("b", "  ", ""), MTok("", "", " "), MTok("zz", "", ""),
-          MTok("a.b", "", ""), MTok("a-b", " ", " "), MTok("_", "", ""), MTok(".a", "", ""),      \* a dimension NAMED ".a": {{matrix..a}}
+          MTok("a.b", "", ""), MTok("a-b", " ", " "), MTok("_", "", ""), MTok(".a", "", ""), MTok("a", "\n  ", "\n"),      \* a dimension NAMED ".a": {{matrix..a}}
           MNear("{{matrix"), MNear("{matrix}"), MNear("{{ matrixx }}"), MNear("{{matrix.}}"), MNear("{{matrix .a}}"),
           MNear("{{ matrix.a b }}"), MNear("{{Matrix}}"), MNear("{{ matrix.a }") }
 Perms == { ("a" :> "VA") @@ ("b" :> "VB"),
